@@ -6,6 +6,6 @@ CONSTANTS
   MARK <- MarkSigned
   MaxFills = 3
 INVARIANTS TypeOK AvgPositive SideSize Conservation FeesConserved
-PROPERTIES ExitIff Ids QmaxAvg FreshUnreal MarkOnlyUnreal
+PROPERTIES ExitIff Ids QmaxAvg FreshUnreal MarkOnlyUnreal NoPriceStutter
 VIEW View
 CHECK_DEADLOCK FALSE
